@@ -181,6 +181,52 @@ def gen_case(r, pid=None):
     return case
 
 
+def small_scope(r):
+    """Bounded-exhaustive companion (thorough tier): EVERY sequence of up to 3 modes out of disabled / autonomous / teleop / test
+    (each held for 1 or 2 wake-ups), with and without endCompetition, on three small layouts, FMS on and off, without faults and
+    with one fault per (callback kind, mode) group."""
+    import itertools
+    words = {"Disabled": [0, 0, 0], "Auto": [1, 1, 0], "Teleop": [1, 0, 0], "Test": [1, 0, 1]}
+    layouts = [
+        dict(ncomp=0, comps=[], fb_owners=[-1], nattr=0, marked={}),
+        dict(ncomp=1, comps=[dict(has_setup=True, has_enable=True, has_disable=True, inherit=False, redeclare=False, preassign=False)],
+             fb_owners=[0], nattr=1, marked={"0,0": 7}),
+        dict(ncomp=2, comps=[dict(has_setup=False, has_enable=True, has_disable=False, inherit=True, redeclare=False, preassign=False),
+                             dict(has_setup=True, has_enable=False, has_disable=True, inherit=False, redeclare=False, preassign=False)],
+             fb_owners=[-1, 1], nattr=2, marked={"0,1": 5, "1,0": -3}),
+    ]
+    for L in (1, 2, 3):
+        for seq in itertools.product(list(words), repeat=L):
+            if any(a == b for a, b in zip(seq, seq[1:])):
+                continue
+            for dwell in (1, 2):
+                for end in (False, True):
+                    for li, lay in enumerate(layouts):
+                        for fms in (True, False):
+                            ticks = [list(words[m]) for m in seq for _ in range(dwell)] + (["end"] if end else [])
+                            base = dict(lay, teleop_in_auto=(li == 2), has_auto=(li != 0), fms=fms, robot_split=0, ticks=ticks,
+                                        raises=[], writes={}, fbval={})
+                            blocks, modes_ = spec_sites(base)
+                            flat = [x for b in blocks for x in b]
+                            for k, x in enumerate(flat):
+                                if x[0] == "Feedback":
+                                    base["fbval"][str(k)] = (k % 7) - 2
+                            if lay["ncomp"] and flat:
+                                base["writes"] = {str(r.randrange(len(flat))): [[0, 0, 9]]}
+                            yield dict(base)
+                            # one fault per (callback kind, mode) group of this run
+                            groups = {}
+                            k = 0
+                            for b, m in zip(blocks, modes_):
+                                for x in b:
+                                    if x[0] != "Setup":
+                                        groups.setdefault((x[0], x[1] if x[0] in ("Init", "Periodic") else None, m), []).append(k)
+                                    k += 1
+                            if groups and dwell == 1 and not end:
+                                key = sorted(groups, key=repr)[r.randrange(len(groups))]
+                                yield dict(base, raises=[r.choice(groups[key])])
+
+
 def add_timing(case, r):
     """callbacks that take simulated time and wake-ups that come late, all fitting in the period
     (Robot.Period.fits): spend[k] us inside invocation k, jitter[i] us lateness of the wake-up of tick i"""
@@ -633,6 +679,12 @@ def robot_check(ctx, pid):
             if f.endswith(".json"):
                 corpus.append(json.load(open(os.path.join(cdir, f)))["case"])
     cases = corpus + [gen_case(r, pid) for _ in range(n)]
+    if ctx.tier == "thorough":
+        ss = list(small_scope(r))
+        ctx.coverage["small_scope_exhaustive"] = {
+            "robots": len(ss), "what": "every sequence of <= 3 distinct consecutive modes x dwell 1-2 x endCompetition or not x 3 small layouts x "
+            "FMS on/off, fault-free and with one fault in one (callback kind, mode) group"}
+        cases += ss
     outs = run_many(cases)
     # a robot that could not be driven (start-up or step timed out on a loaded machine) is retried alone
     retried = 0
